@@ -408,6 +408,10 @@ func main() {
 
 func replay() {
 	m := ctx.LoadReplay()
+	if m["kind"] == "two-recordings" {
+		twoRecordings()
+		ctx.Finish("replay")
+	}
 	var seq []ls.SMsg
 	for _, n := range m["messages"].([]interface{}) {
 		for _, a := range alphabet {
